@@ -8,6 +8,7 @@ import Dhcp.Driver.V6Build
 import Dhcp.Driver.Client
 import Dhcp.Driver.Server
 import Dhcp.Driver.Misc
+import Dhcp.Driver.Lease
 /-
   Line protocol driver: one operation per input line, one canonical line out.
   `lake build dhcp-driver` compiles it; the Go harness pipes the same lines
@@ -15,10 +16,10 @@ import Dhcp.Driver.Misc
   Each family of operations lives in its own `Dhcp/Driver/<Family>.lean`
   exporting `step<Family> : String → List String → Option String`.
 -/
-open Dhcp.Driver Dhcp.Driver.Cli
+open Dhcp.Driver Dhcp.Driver.Cli Dhcp.Driver.Lse
 
 def families : List (String → List String → Option String) :=
-  [stepV4, stepLabel, stepRaw, stepV4Acc, stepV4Build, stepV6, stepV6Build, stepClient, stepServer, stepMisc]
+  [stepV4, stepLabel, stepRaw, stepV4Acc, stepV4Build, stepV6, stepV6Build, stepClient, stepServer, stepMisc, stepLease]
 
 def step (line : String) : String :=
   match (line.trimAscii.toString.splitOn " ").filter (· ≠ "") with
